@@ -223,7 +223,9 @@ impl<T: Qcow2IoOps> Qcow2Dev<T> {
             } else {
                 // the top device is asking for read, which is usually
                 // caused by top device resize, so simply fake we provide
-                // data requested
+                // data requested: everything beyond the end of the backing
+                // image reads as zero
+                zero_buf!(buf);
                 return Ok(buf.len());
             }
         }
@@ -247,6 +249,8 @@ impl<T: Qcow2IoOps> Qcow2Dev<T> {
             // backed by data, rounded down to a block boundary.
             len = ((vsize - offset) as usize) & !bs_mask;
             if info.is_back_file() {
+                // the part beyond the end of the backing image reads as zero
+                buf[len..].fill(0);
                 buf.len() - len
             } else {
                 0
